@@ -254,6 +254,22 @@ impl Property for C20 {
             let sa = xot.to_string(by_parse).map_err(|e| format!("to_string(parse route): {}", e))?;
             let sb = xot.to_string(by_fixed).map_err(|e| format!("to_string(fixed route): {}", e))?;
             let sc = xot.to_string(by_steps).map_err(|e| format!("to_string(stepwise route): {}", e))?;
+            // route 1b (drawn last): parse of a LEXICALLY RICH rendering of the same document
+            // (references, CDATA runs, CR / CRLF line ends, alias prefixes, interleaved declarations)
+            if let Ok(rich) = render::render(src, &doc, render::Style { fragment: false, prolog: is_doc, ..render::Style::rich() }) {
+                match guarded(|| xot.parse(&rich.text)).map_err(|p| format!("parse of a rich rendering panicked: {}", p))? {
+                    Ok(d2) => {
+                        ctx.label("rich_rendering_parsed");
+                        let by_rich = if is_doc { d2 } else { xot.document_element(d2).map_err(|e| e.to_string())? };
+                        let r = bridge::read(&xot, by_rich)?;
+                        same_tree(&r, &doc, Cmp::content()).map_err(|e| format!("parse of the rich rendering {:?} differs from the abstract document: {}", rich.text, e))?;
+                        if !xot.deep_equal(by_rich, by_steps) {
+                            return Err(format!("the tree parsed from the rich rendering {:?} reads back equal but is not deep_equal to the stepwise one", rich.text));
+                        }
+                    }
+                    Err(_) => ctx.label("rich_rendering_rejected"),
+                }
+            }
             let sd = xot.to_string(by_pieces).map_err(|e| format!("to_string(stepwise route with text pieces): {}", e))?;
             if sd != sa {
                 return Err(format!("serialisations differ: parse {:?} stepwise with text pieces {:?}", sa, sd));
